@@ -996,6 +996,14 @@ def _list_method(ip, recv, c, name, args, kw):
         c['seq'] = SV(simp(z3.Concat(s.e, ov.e)), s.kind)
         return None
     if name == 'pop':
+        if not args:
+            pl = M.seq_peel_last(s.e)
+            if pl is not None:      # the list syntactically ends in a known element: no solver work needed
+                c['seq'] = SV(simp(pl[0]), s.kind)
+                r = SV(simp(pl[1][0]), ek)
+                M.typing_facts(ip, r)
+                ok_, cv_ = concrete_of(r)
+                return cv_ if ok_ else r
         if not st.branch(n > 0, "list non-empty"):
             ip.raise_(IndexError, "pop from empty list")
         if args:
@@ -1005,6 +1013,9 @@ def _list_method(ip, recv, c, name, args, kw):
                 ip.raise_(IndexError, "pop index out of range")
         else:
             idx = simp(n - 1)
+            r = M.elem_value(ip, s, idx)
+            c['seq'] = SV(simp(z3.SubSeq(s.e, 0, idx)), s.kind)      # pop(): the list without its last element
+            return r
         r = M.elem_value(ip, s, idx)
         c['seq'] = SV(simp(z3.Concat(z3.SubSeq(s.e, 0, idx), z3.SubSeq(s.e, idx + 1, n - idx - 1))), s.kind)
         return r
